@@ -1,6 +1,7 @@
 package main
 
 import (
+	"strings"
 	"verif/harness"
 	"verif/model"
 	"verif/univ"
@@ -44,6 +45,13 @@ func checkC11(r *harness.Run) harness.Coverage {
 	docs = append(docs, univ.Js(`{"g":[{"m":[{"v":1,"n":1}]},{"m":[{"v":1,"n":"x"}]},{"m":[{"v":1,"n":3}]},{"m":[{"v":1,"n":4}]}],"h":[{"m":[{"v":2,"n":2},{"v":1,"n":1}]},{"m":[{"v":1,"n":0}]}]}`,
 		`{"g":[{"m":[{"v":1,"n":2}]},{"m":[{"v":1,"n":1}]},{"m":[{"v":"x","n":3}]}],"h":[{"m":[{"v":1,"n":5}]},{"m":[{"v":1,"n":"y"}]},{"m":[{"v":1,"n":6}]}]}`)...)
 	docs = append(docs, univ.Js(`[5,"x"]`, `[0,"a",2]`, `{"a":[5,"x"],"b":[2]}`, `{"a":[0,"x",2],"b":[1]}`, `[{"k":5},{"k":"x"}]`, `{"a":[{"k":5,"t":"n"},{"k":"x","t":"s"},{"k":-2,"t":"n"}],"b":1}`)...)
+	// one-element arrays whose only key is not a number or string (nothing to compare it with, still an error)
+	docs = append(docs, univ.Js(`[{"k":true}]`, `[{"k":null}]`, `[{"k":[1]}]`, `[{"j":1}]`, `{"a":[{"k":false,"t":"n"}],"b":2}`)...)
+	for _, by := range []string{"max_by(@, &k)", "min_by(@, &k)", "sort_by(@, &k)", "max_by(a, &k)", "min_by(a, &k)", "sort_by(a, &k)"} {
+		for _, ctx := range []string{"%s", "%s || `1`", "[%s]", "{x: %s}", "map(&%s, [@])", "%s | [0]", "@ | %s", "not_null(%s, `1`)", "[?`true`] | %s", "length(to_array(%s))", "!%s", "%s == `null`", "[`1`, %s][0]"} {
+			exprs = append(exprs, exprFromText(strings.Replace(ctx, "%s", by, -1)))
+		}
+	}
 	// errors that depend on the element: a failing element AFTER a succeeding one, and elements the
 	// filter condition excludes (which must then not be evaluated at all)
 	for _, e := range []string{"[?abs(@) > `1`] | [0]", "[?abs(@) > `1`]", "a[?abs(k) > `1`] | [0]", "a[?abs(k) > `1`].t | [0]", "[?@ < `1`].abs(@)", "a[?t == 'n'].abs(k)", "a[?t == 's'].abs(k)", "a[?abs(k) > `2`].t",
